@@ -117,8 +117,49 @@ def sym_check(ctx, c, outs):
 def miller(c):
     from orix.vector import Miller
     ph = phase_for(c["k"], c["basis"])
-    kw = {c["fmt"]: np.asarray(c["coords"], float).reshape(tuple(c["shape"]) + (3,))}
+    dt = int if c.get("dtype") == "int" else float     # Python / numpy integers are legitimate input
+    kw = {c["fmt"]: np.asarray(c["coords"], dt).reshape(tuple(c["shape"]) + (3,))}
     return Miller(phase=ph, **kw)
+
+
+def reuse_check(ctx, c, outs):
+    """symmetry queries on ONE object before and after it is edited in place (vectors replaced, point group of the
+    phase changed) agree with the same queries on a freshly constructed object in the final state"""
+    from orix.vector import Miller
+    m0 = miller(c)
+    # own copy of the phase: the edits below must not touch the phase objects the other cases share
+    m = Miller(xyz=np.array(m0.data, copy=True), phase=m0.phase.deepcopy())
+    m.coordinate_format = m0.coordinate_format
+    G2 = groups()[c["k2"]]
+    with warnings.catch_warnings():
+        warnings.simplefilter("ignore")
+        _ = m.multiplicity                                   # first use
+        _ = m.symmetrise(unique=True)
+        new = np.asarray(c["coords2"], float).reshape(tuple(c["shape"]) + (3,))
+        ed = c["edit"]
+        if ed == "setitem":
+            j = c["j"] % m.size
+            idx = np.unravel_index(j, m.shape)
+            m[idx] = Miller(phase=m.phase, **{c["fmt"]: new[idx].reshape(1, 3)})
+        elif ed == "data":
+            m.data = Miller(phase=m.phase, **{c["fmt"]: new}).data
+        elif ed == "coords":
+            setattr(m, c["fmt"] if c["fmt"] != "xyz" else "hkl", new)
+        elif ed == "point_group":
+            m.phase.point_group = G2
+        elif ed == "phase":
+            m.phase = phase_for(c["k2"], basis_of(c["k2"])).deepcopy()
+        fresh = Miller(xyz=np.array(m.data, copy=True), phase=m.phase.deepcopy())
+        fresh.coordinate_format = m.coordinate_format
+        a, b = m.multiplicity, fresh.multiplicity
+        if np.asarray(a).shape != np.asarray(b).shape or not np.array_equal(a, b):
+            return (f"{groups()[c['k']].name}: multiplicity after the in-place edit '{ed}' is {np.asarray(a).tolist()} but a freshly "
+                    f"constructed Miller with the same vectors and phase gives {np.asarray(b).tolist()}")
+        sa, sb = m.symmetrise(unique=True), fresh.symmetrise(unique=True)
+        scale = max(1.0, float(np.abs(fresh.data).max()))
+        if sa.size != sb.size or rows_set(sa.data / scale) != rows_set(sb.data / scale):
+            return f"symmetrise(unique=True) after the in-place edit '{ed}' differs from that of a freshly constructed object"
+    return None
 
 
 def images_of(G, xyz):
@@ -281,6 +322,7 @@ SITES = {
     "angle_sym": sites.Site("angle_sym", "prop", angle_check),
     "unique_sym": sites.Site("unique_sym", "prop", unique_check),
     "round": sites.Site("round", "prop", round_check),
+    "reuse": sites.Site("reuse", "prop", reuse_check),
 }
 PREDICATES = {}
 
@@ -331,6 +373,19 @@ def generate(ctx):
             c = {"k": k, "basis": b, "fmt": fmt, "shape": list(shape), "coords": coords}
             ctx.count(f"symmetrise/{fmt}", ("s", k, fmt, tuple(coords[0])), nontrivial=G.size > 1)
             yield "symmetrise", c
+            # integer input arrays (vectors given as Python ints)
+            ci = {"k": k, "basis": b, "fmt": ["xyz", "hkl", "uvw"][(k + r) % 3], "shape": [2], "dtype": "int",
+                  "coords": [[int(x) for x in rng.integers(-3, 4, size=3)] for _ in range(2)]}
+            ci["coords"] = [v if any(v) else [1, 2, 0] for v in ci["coords"]]
+            ctx.count(f"symmetrise/int/{ci['fmt']}", ("si", k, tuple(map(tuple, ci["coords"]))), nontrivial=G.size > 1)
+            yield "symmetrise", ci
+            ed = ["setitem", "data", "coords", "point_group", "phase"][(k + r) % 5]
+            k2 = int(rng.integers(len(gs)))
+            if ed in ("point_group", "phase") and basis_of(k2) != b:
+                k2 = k
+            cr = dict(c, coords2=vectors(rng, G, n), edit=ed, j=int(rng.integers(16)), k2=k2)
+            ctx.count(f"reuse/{ed}", ("ru", k, ed, tuple(coords[0])), nontrivial=G.size > 1)
+            yield "reuse", cr
             ctx.count("unique_sym", ("u", k, tuple(coords[0])), nontrivial=G.size > 1)
             yield "unique_sym", dict(c)
             ctx.count("angle_sym", ("a", k, tuple(coords[0])), nontrivial=G.size > 1)
